@@ -19,11 +19,15 @@
 #include <string.h>
 
 int libwifi_tag_iterator_init(struct libwifi_tag_iterator *it, const void *tags_start, size_t data_len) {
-    if (data_len <= 0) {
+    if (data_len < sizeof(struct libwifi_tag_header)) {
         return -EINVAL;
     }
 
     it->tag_header = (struct libwifi_tag_header *) tags_start;
+    if (it->tag_header->tag_len > data_len - sizeof(struct libwifi_tag_header)) {
+        return -EINVAL;
+    }
+
     it->tag_data = (unsigned char *) tags_start + sizeof(struct libwifi_tag_header);
     it->_next_tag_header = (struct libwifi_tag_header *) (it->tag_data + it->tag_header->tag_len);
     it->_frame_end = (unsigned char *) (tags_start) + data_len - 1;
